@@ -4,7 +4,7 @@
 (* instantiated transport capacity N; all-unset and body-less responses at    *)
 (* the smallest capacities; arbitrary previous buffer contents; two-exchange  *)
 (* histories in which the buffer is reused.  C17.                             *)
-EXTENDS Ctap, Gen
+EXTENDS Ctap, Gen, Lattice
 
 Caps == (1..600) \cup (1022..1026) \cup (3070..3074) \cup {1024, 3072, 7609}
 
@@ -69,7 +69,27 @@ EveryCap ==
            {[op |-> "encode2", tag |-> "every-capacity", resp |-> r, cap |-> N, stale |-> << >>] :
                N \in {n \in Caps : n <= len + 2 /\ n <= 600}} : r \in FullResponses}
 
-MC_Cases == Tuned \cup EmptyBodies \cup Smallest \cup Planted \cup EveryCap
+\* the LARGEST value of every response kind (every member present at the upper end of its type)
+\* and every pair of members at the extremes, against capacities just below, at and above the
+\* message length and against the usual transport sizes: an encoder that sizes its working space
+\* from an estimate of the largest response is exact only if the estimate is
+LatticeResps ==
+    UNION {{[kind |-> k, v |-> v] : v \in TwoAtATime(RespSchema(k), F, FALSE) \cup ThreeAtATime(RespSchema(k), F, FALSE)} :
+              k \in {"MakeCredential", "GetAssertion", "ClientPin", "CredentialManagement", "LargeBlobs"}}
+    \cup {[kind |-> "GetInfo", v |-> FullOfHighs("GetInfoResp", F, FALSE)], [kind |-> "GetInfo", v |-> FullOfDefaults("GetInfoResp", F, FALSE)]}
+Largest ==
+    UNION {LET len == Len(EncodeResponse(r, F)) IN
+           {[op |-> "encode2", tag |-> "largest", resp |-> r, cap |-> N, stale |-> << >>] :
+               N \in {len - 1, len, len + 1, 1024, 3072, 7609} \cap Caps} : r \in LatticeResps}
+
+MC_Cases == Tuned \cup EmptyBodies \cup Smallest \cup Planted \cup EveryCap \cup Largest
+
+\* the status byte in front of every kind of response, fitting and not, with and without previous
+\* contents in the buffer (C18: the numbers of Success and Other as emitted)
+StatusCases == EmptyBodies \cup Smallest \cup Planted
+               \cup {[op |-> "encode2", tag |-> "status-after", resp |-> r, cap |-> N, stale |-> st] :
+                        r \in FullResponses, N \in {1, 2, 64, 600, 1024},
+                        st \in {<<6>>, <<127>>, <<255>>, <<0, 161, 3, 8>>, <<0, 161, 3, 8, 0, 0, 0, 0, 0, 0, 0, 0, 0, 0, 0, 0, 0, 0, 0, 0>>}}
 
 \* two-exchange histories: long then short, short then error, error then long
 HistResps == {CpTok(0), CpTok(40), CpKeyTok(48), GaAuth(37), [kind |-> "Reset", v |-> << >>],
